@@ -197,6 +197,7 @@ Denotes(s, raw) ==
       [] s.kind = "object" -> DenObject(s, raw)
       [] s.kind = "oneof" -> DenOneOf(s, raw)
       [] s.kind = "scope" -> Denotes(Unfold(s, VDepth(raw)), raw)
+      [] s.kind = "refcut" -> DNone       \* see SchemaSem!Unser
 
 \* ------------------------------------------------------------------ Presence (C03)
 \* the presence rules over the set D of properties that are set after defaulting, stated per rule kind
@@ -241,6 +242,7 @@ Satisfies(s, v) ==
       [] s.kind = "oneof" ->
             LET n == OneOfNative(s, v) IN n.ok /\ Satisfies(n.m, n.w)
       [] s.kind = "scope" -> Satisfies(Unfold(s, VDepth(v)), v)
+      [] s.kind = "refcut" -> FALSE
 
 \* ------------------------------------------------------------------ native values of a schema's type
 RECURSIVE IsNative(_, _), IsAnyTree(_)
@@ -280,6 +282,7 @@ IsNative(s, v) ==
                        m.layout = "map" /\ IsNative(m, IF s.inlined THEN v ELSE Without(v, s.field))
             ELSE v.k = "struct" /\ \E i \in DOMAIN s.members : s.members[i][2].layout = v.t /\ IsNative(s.members[i][2], v)
       [] s.kind = "scope" -> IsNative(Unfold(s, VDepth(v)), v)
+      [] s.kind = "refcut" -> FALSE
 
 \* the wire form of a native value (what Serialize has to emit)
 RECURSIVE WireOf(_, _)
@@ -321,6 +324,7 @@ UsesDisabled(s, v) ==
             \E i \in DOMAIN s.props : ps[i].some /\ (s.props[i].disabled \/ UsesDisabled(s.props[i].type, ps[i].v))
       [] s.kind = "oneof" -> LET n == OneOfNative(s, v) IN n.ok /\ UsesDisabled(n.m, n.w)
       [] s.kind = "scope" -> UsesDisabled(Unfold(s, VDepth(v)), v)
+      [] s.kind = "refcut" -> FALSE
 DeclValid(s, x) ==
     IF ~IsNative(s, x) THEN Unspec
     ELSE IF UsesDisabled(s, x) THEN Unspec
